@@ -568,6 +568,104 @@ static void op_append(const tc *t, size_t prefix)
 	tc_unchanged(t, "append");
 }
 
+/* ------------------------------- message_append on fixed-capacity targets */
+/*
+ * Target buffer implemented through the public buffer interface: unique,
+ * mutable, payload directly behind the header, detach() hands the buffer back
+ * while the request fits its storage and refuses any growth.  An append that
+ * cannot be completed must leave such a target exactly as the append of the
+ * contiguous message leaves an identical one.
+ */
+static uint32_t fixed_flags(const MPT_STRUCT(buffer) *b) { (void) b; return 0; }
+static void fixed_unref(MPT_STRUCT(buffer) *b) { (void) b; }
+static uintptr_t fixed_addref(MPT_STRUCT(buffer) *b) { (void) b; return 0; }
+static unsigned long fixed_detach_refusals;
+static MPT_STRUCT(buffer) *fixed_detach(MPT_STRUCT(buffer) *b, size_t len)
+{
+	if (len <= b->_size) return b;
+	fixed_detach_refusals++;
+	return 0;
+}
+static const MPT_INTERFACE_VPTR(buffer) fixed_ctl = { fixed_flags, fixed_unref, fixed_addref, fixed_detach };
+
+static MPT_STRUCT(buffer) *fixed_new(size_t cap, const uint8_t *pre, size_t npre)
+{
+	MPT_STRUCT(buffer) *b = vf_xalloc(sizeof(*b) + cap);
+	uint8_t *d = (uint8_t *) (b + 1);
+	b->_vptr = &fixed_ctl;
+	b->_content_traits = 0;
+	*((size_t *) &b->_size) = cap;
+	b->_used = npre;
+	memset(d, 0xEE, cap);
+	if (npre) memcpy(d, pre, npre);
+	return b;
+}
+static void op_append_fixed(const tc *t, size_t cap, size_t npre)
+{
+	static const uint8_t pre[4] = { 0xC1, 0xC2, 0xC3, 0xC4 };
+	MPT_STRUCT(message) m;
+	MPT_STRUCT(buffer) *bc, *bf;
+	MPT_STRUCT(array) ac, af;
+	int fits = npre + t->L <= cap;
+
+	if (npre > cap) return;
+	/* contiguous run on its own target */
+	bc = fixed_new(cap, pre, npre);
+	ac._buf = bc;
+	make_msg(t, VFlat, &m);
+	vf_at("mpt_message_append"); vf_count("mpt_message_append", 1);
+	if (vf_logging) vf_log("message_append onto fixed buffer (capacity %zu, holding %zu) %s (contiguous)", cap, npre, t->desc);
+	int rc = mpt_message_append(&ac, &m);
+	const uint8_t *dc = (const uint8_t *) (bc + 1);
+	VF_CHECK(ac._buf == bc, "model:append-fixed:contiguous-reference", "%s: contiguous append replaced the fixed buffer (capacity %zu, holding %zu)", t->desc, cap, npre);
+	VF_CHECK((rc >= 0) == fits, "model:append-fixed:contiguous-reference", "%s: contiguous append of %zu bytes onto %zu of %zu returned %d", t->desc, t->L, npre, cap, rc);
+	if (fits) {
+		VF_CHECK(bc->_used == npre + t->L && !memcmp(dc, pre, npre) && (!t->L || !memcmp(dc + npre, t->S, t->L)), "model:append-fixed:contiguous-reference",
+		         "%s: contiguous append onto %zu of %zu: buffer holds %zu bytes %s", t->desc, npre, cap, bc->_used, show(hx1, sizeof(hx1), dc, bc->_used));
+	}
+	VF_CHECK(bc->_used <= cap, "model:append-fixed:contiguous-reference", "%s: contiguous append left used %zu > capacity %zu", t->desc, bc->_used, cap);
+	for (int v = 0; v < VFlat; v++) {
+		if (!make_msg(t, v, &m)) continue;
+		bf = fixed_new(cap, pre, npre);
+		af._buf = bf;
+		fixed_detach_refusals = 0;
+		size_t head = m.used;
+		vf_at("mpt_message_append"); vf_count("mpt_message_append", 1);
+		if (vf_logging) vf_log("message_append onto fixed buffer (capacity %zu, holding %zu) %s (%s)", cap, npre, t->desc, vname[v]);
+		int rf = mpt_message_append(&af, &m);
+		const uint8_t *df = (const uint8_t *) (bf + 1);
+		VF_CHECK(af._buf == bf, "model:append-fixed:fragmented-differs", "%s (%s): append replaced the fixed buffer (capacity %zu, holding %zu), contiguous run kept it", t->desc, vname[v], cap, npre);
+		VF_CHECK((rf < 0) == (rc < 0), "model:append-fixed:fragmented-differs", "%s (%s): append onto %zu of %zu bytes returned %d, contiguous %d", t->desc, vname[v], npre, cap, rf, rc);
+		VF_CHECK(bf->_used == bc->_used, "model:append-fixed:fragmented-differs",
+		         "%s (%s): append onto %zu of %zu bytes returned %d and left %zu bytes (%s); contiguous returned %d and left %zu bytes (%s)", t->desc, vname[v], npre, cap,
+		         rf, bf->_used, show(hx1, sizeof(hx1), df, bf->_used > cap ? cap : bf->_used), rc, bc->_used, show(hx2, sizeof(hx2), dc, bc->_used));
+		VF_CHECK(!bc->_used || !memcmp(df, dc, bc->_used), "model:append-fixed:fragmented-differs", "%s (%s): append onto %zu of %zu bytes left content %s, contiguous %s", t->desc, vname[v], npre, cap,
+		         show(hx1, sizeof(hx1), df, bf->_used), show(hx2, sizeof(hx2), dc, bc->_used));
+		if (rf < 0) {
+			vf_count("monitor:append-fixed-refused", 1);
+			/* the state that matters: head part went in, a later part was refused */
+			if (head && npre + head <= cap) vf_count("monitor:append-fixed-refused-after-head", 1);
+		} else {
+			vf_count("monitor:append-fixed-accepted", 1);
+		}
+		vf_xfree(bf, sizeof(*bf) + cap);
+	}
+	vf_xfree(bc, sizeof(*bc) + cap);
+	tc_unchanged(t, "append-fixed");
+}
+static void battery_append_fixed(const tc *t)
+{
+	size_t L = t->L, f0 = t->k ? t->flen[0] : 0;
+	for (size_t npre = 0; npre <= 2; npre += 2) {
+		size_t caps[8] = { npre + L, npre + L + 3, L ? npre + L - 1 : npre, npre + f0, npre + f0 + 1, npre + L / 2, npre, npre + (L > 2 ? L - 2 : 0) };
+		for (int i = 0; i < 8; i++) {
+			int dup = 0;
+			for (int j = 0; j < i; j++) if (caps[j] == caps[i]) dup = 1;
+			if (!dup) op_append_fixed(t, caps[i], npre);
+		}
+	}
+}
+
 /* -------------------------------------------------------------- battery */
 static int nfrag_nonempty, nfrag_empty;
 static void battery(tc *t, vf_rng *r, int full)
@@ -590,6 +688,7 @@ static void battery(tc *t, vf_rng *r, int full)
 	op_append(t, 0);
 	op_append(t, 1 + vf_below(r, 5));
 	op_append(t, 100 + vf_below(r, 200));   /* crosses the allocation granule of the array */
+	battery_append_fixed(t);
 	tc_free(t);
 }
 
